@@ -1,9 +1,9 @@
 SPECIFICATION Spec
 CONSTANTS
-  GuardPerSync = FALSE
+  GuardPerSync = TRUE
   MaxLen = 4
   Deep = FALSE
-  WithAny = FALSE
+  WithAny = TRUE
   UnboundedBrace = FALSE
-INVARIANTS Equivalent
+INVARIANTS AsBuiltSound AsBuiltCompleteExceptD40
 CHECK_DEADLOCK FALSE
